@@ -117,6 +117,9 @@ func legSem(c *Ctx, rtl bool) {
 		if len(alpha) < 4 {
 			alpha = append(alpha, 'Z')
 		}
+		if rtl && len(alpha) < 5 {
+			alpha = append(alpha, 'é') // byte and rune offsets differ: the entry points' default start is the END of the text
+		}
 		if len(alpha) > 5 {
 			alpha = alpha[:5]
 		}
@@ -153,9 +156,17 @@ func legSem(c *Ctx, rtl bool) {
 			for len(small) < 3 {
 				small = append(small, rune('Z'-len(small)))
 			}
+
 			alpha = small
 		}
 		allStrings(alpha, ml, func(s []rune) { inputs = append(inputs, s) })
+		if rtl {
+			// the shortest texts once more with a multi-byte rune in front and behind (byte and rune offsets differ: the
+			// entry points' default start is the END of the text)
+			for _, s := range inputs[:min(len(inputs), 30)] {
+				inputs = append(inputs, append([]rune{'é'}, s...), append(append([]rune{}, s...), 'é'))
+			}
+		}
 		for k := 0; k < 12; k++ {
 			inputs = append(inputs, randString(c.Rng, alpha, 10))
 		}
@@ -186,6 +197,12 @@ func legSem(c *Ctx, rtl bool) {
 					}
 				}
 				if (start == 0 && !rtl) || (start == len(in) && rtl) {
+					// the bool-only string entry point computes its own default start
+					if ok, errb, panb := safeMatchString(re, string(in)); panb != "" {
+						c.Add(&Case{Desc: desc, Direct: "MatchString panicked: " + panb, Class: "panic"})
+					} else if errb == nil && err == nil && ok != (m != nil) {
+						c.Add(&Case{Desc: "[MatchString] " + desc, Direct: fmt.Sprintf("MatchString on the same text returns %v", ok), Class: "string-entry"})
+					}
 					// the string entry point answers the same question (it runs the raw-string prefilter in front)
 					if ms, errs, pans := safeFindString(re, string(in)); pans != "" {
 						c.Add(&Case{Desc: desc, Direct: "FindStringMatch panicked: " + pans, Class: "panic"})
@@ -212,6 +229,16 @@ func legSem(c *Ctx, rtl bool) {
 	for k := ALit; k <= AOptGroup; k++ {
 		c.Gate(fmt.Sprintf("AST kind %d generated", k), modes[fmt.Sprintf("kind%d", k)] > 0)
 	}
+}
+
+func safeMatchString(re *regexp2.Regexp, in string) (ok bool, err error, pan string) {
+	defer func() {
+		if p := recover(); p != nil {
+			pan = fmt.Sprint(p)
+		}
+	}()
+	ok, err = re.MatchString(in)
+	return
 }
 
 func safeFindStringAt(re *regexp2.Regexp, in string, at int) (m *regexp2.Match, err error, pan string) {
@@ -358,6 +385,18 @@ func adjacencyFamily() []*Ast {
 		cat(wideCap(), &Ast{Kind: ACondRef, Ref: 1, Kids: []*Ast{rep(lit('b'), 0, -1, false), lit('c')}}, lit('c')),
 		cat(rep(grp(&Ast{Kind: AClass, Items: []ClassItem{{Short: 'w'}}}), 0, 1, true), &Ast{Kind: ACondRef, Ref: 1, Kids: []*Ast{lit('!'), lit('?')}}),
 		cat(wideCap(), &Ast{Kind: ABackref, Ref: 1}, lit('b')),
+	)
+	// a group that can be empty, then an OPTIONAL group that starts with a backreference to it: the first characters of a
+	// match include whatever follows the backreference (and nothing can be said when the reference may stand for any text)
+	nc2 := func(a *Ast) *Ast { return &Ast{Kind: ANonCap, Kids: []*Ast{a}} }
+	bref := func() *Ast { return &Ast{Kind: ABackref, Ref: 1} }
+	out = append(out,
+		cat(grp(rep(lit('a'), 0, -1, false)), rep(nc2(cat(bref(), lit('b'))), 0, 1, false), lit('c')),
+		cat(grp(rep(lit('a'), 0, 1, false)), rep(nc2(cat(bref(), lit('b'))), 0, -1, false), lit('c')),
+		cat(grp(alt(lit('a'), rep(lit('b'), 0, 1, false))), rep(nc2(cat(bref(), lit('b'))), 0, 2, true), lit('c')),
+		cat(&Ast{Kind: ALook, Behind: true, Kids: []*Ast{grp(lit('c'))}}, rep(nc2(cat(bref(), lit('a'))), 0, 1, false), lit('b')),
+		cat(grp(rep(lit('a'), 0, -1, false)), rep(grp(cat(bref(), lit('b'))), 0, 1, false), lit('c')),
+		cat(rep(grp(lit('a')), 0, 1, false), rep(nc2(cat(bref(), lit('b'))), 1, 2, false), lit('c')),
 	)
 	// atomic alternations of three or more literal branches sharing first or last characters (the regrouping of
 	// branches by their first character is right only where a branch is entered by its first character: not when
